@@ -218,6 +218,7 @@ PRIMES = [2, 3, 5, 7, 11, 13, 17, 19, 23, 29, 31]
 class RelGen:
     def __init__(self, seed):
         self.r = random.Random(seed)
+        self.r2 = random.Random(seed * 7919 + 35)      # stream of the completeness class (pslq_complete_task)
         self.hist = {}
         self.n = 0
 
@@ -295,6 +296,37 @@ class RelGen:
         t["class"] = cls
         self.note("pslq_class", cls)
         self.note("pslq_n", n)
+        return t
+
+    def pslq_complete_task(self):
+        """completeness class: a PRIMITIVE planted relation whose coefficients ALL lie in [maxcoeff/2, maxcoeff) (random signs),
+        n = 3..5, among constants that are linearly independent over Q (1, square roots of distinct primes, pi, e, log 2); the last
+        entry is solved from the relation at 3*prec+200 bits and everything is rounded to prec >= 3*n*log2(maxcoeff) + 100 bits;
+        maxsteps is raised so that the step limit cannot be the reason for a None.  Drawn from its own generator stream."""
+        from math import gcd, log2, ceil
+        r = self.r2
+        n = r.randint(3, 5)
+        M = r.choice([100, 1000, 1000, 10 ** 4, 10 ** 5])
+        while True:
+            c = [r.randint((M + 1) // 2, M - 1) * r.choice([-1, 1]) for _ in range(n)]
+            g = 0
+            for v in c:
+                g = gcd(g, abs(v))
+            if g == 1:
+                break
+        pool = [["sqrt", p_] for p_ in PRIMES] + [["pi"], ["e"], ["log", 2], ["q", 1, 1]]
+        xs = r.sample(pool, n - 1)
+        need = int(ceil(3 * n * log2(M))) + 100
+        prec = need + r.choice([0, 0, 7, 50, 100])
+        self.note("prec", prec)
+        t = {"id": self._id(), "kind": "pslq", "prec": prec, "plant": c, "x": xs, "maxcoeff": M, "maxsteps": 10 ** 6,
+             "class": "planted-complete", "complete": True, "expect_found": True}
+        if r.random() < 0.2:
+            t["scale"] = r.choice([-40, 40])
+        self.note("pslq_class", "planted-complete")
+        self.note("pslq_complete_n", n)
+        self.note("pslq_complete_maxcoeff", M)
+        self.note("pslq_complete_norm2_over_maxcoeff", "%.1f" % (round(2 * (sum(v * v for v in c) ** 0.5) / M) / 2))
         return t
 
     def findpoly_task(self):
